@@ -42,6 +42,10 @@ PROFILES = ["exceptions", "fibers", "classes", "iteration"]
 
 # (name, source, expected printed lines, expected outcome: "ok" | ("err", kind, first message))
 SCENARIOS = [
+    # the handler of an OUTER activation of the function that is also running deeper: the deeper activations are discarded and the catch
+    # block runs with the variables of the activation that installed it (recursion through try blocks in functions and methods, rethrowing
+    # catch blocks, finally blocks per activation)
+    ("handler-of-an-outer-activation-of-the-same-function", 'fn f(n) { var mine = "level " + String.from(n); if n == 0 { throw "bottom"; } try { f(n - 1); print(mine + ": no exception"); } catch e { print(mine + ": caught " + e); } return n; }\nprint(f(1)); print(f(3));\nfn g(n) { var mine = n * 10; try { if n == 0 { throw "deep"; } return g(n - 1) + 1; } catch e { if n < 2 { throw e + "!"; } print(String.from(mine) + " got " + e); return 100; } }\nprint(g(3));\n#[constructor(new)] class R { fn walk(self, n) { var tag = "w" + String.from(n); try { if n == 0 { nil + 1; } return self.walk(n - 1); } catch e { print(tag + " " + String.from(type(e) == TypeError)); if n < 2 { throw e; } return tag; } } }\nprint(R.new().walk(3));\nfn h(n) { var keep = [n]; try { if n > 0 { h(n - 1); } throw "x" + String.from(n); } catch e { print(String.from(keep[0]) + " " + e); } finally { print("fin " + String.from(keep[0])); } }\nh(2);\n', ['level 1: caught bottom', '1', 'level 1: caught bottom', 'level 2: no exception', 'level 3: no exception', '3', '20 got deep!!', '101', 'w0 true', 'w1 true', 'w2 true', 'w2', '0 x0', 'fin 0', '1 x1', 'fin 1', '2 x2', 'fin 2'], "ok"),
     ("nested-handler-survives-inner-catch",
      'try { try { throw "a"; } catch e { print("inner " + e); } throw "b"; } catch e { print("outer " + e); }',
      ["inner a", "outer b"], "ok"),
